@@ -131,8 +131,9 @@ def main():
         shutil.copytree(demo, f"{dst}/demo")
         gm = f"{dst}/demo/go.mod"
         if os.path.exists(gm):
-            open(gm, "w").write(open(gm).read().replace(wt, "/repo"))
-            shutil.copy(gm, gm + ".txt")  # nested go.mod files do not survive in /verif; the .txt copy does
+            gmtxt = open(gm).read().replace(wt, "/repo")   # read BEFORE opening for writing (open(.., "w") truncates first)
+            open(gm, "w").write(gmtxt)
+            shutil.copy(gm, gm + ".txt")
             meta["demo_note"] = ("go.mod replace path rewritten from the scratch worktree to /repo; run with `go test ./...` in "
                                  "demo/ after `git -C /repo apply patch.diff`")
     meta["needs_to_manifest"] = ""
